@@ -85,18 +85,54 @@ Lemma memN_app : forall x a b, memN x (a ++ b) = memN x a || memN x b.
 Proof. intros. unfold memN. apply existsb_app. Qed.
 
 Definition vget_d (k : key) (m : list (key * varinfo)) : varinfo := match vget k m with Some v => v | None => vi_default end.
-Lemma vget_vmodify : forall x k g m,
+
+(** BTreeMap invariant: keys strictly ascending *)
+Fixpoint vsorted (m : list (key * varinfo)) : Prop :=
+  match m with
+  | [] => True
+  | (k, _) :: r => (forall x, In x (map fst r) -> k < x) /\ vsorted r
+  end.
+Lemma vget_none : forall k m, (forall x, In x (map fst m) -> k <> x) -> vget k m = None.
+Proof.
+  intros k m. induction m as [|[k' v] r IH]; intros H; cbn [vget]; [reflexivity|].
+  destruct (k =? k') eqn:E.
+  - apply N.eqb_eq in E. exfalso. apply (H k'); [left; reflexivity | exact E].
+  - apply IH. intros x Hx. apply H. right. exact Hx.
+Qed.
+Lemma keys_vmodify : forall x k g m, In x (map fst (vmodify k g m)) <-> x = k \/ In x (map fst m).
+Proof.
+  intros x k g m. induction m as [|[k' v] r IH]; cbn [vmodify map fst In].
+  - intuition.
+  - destruct (k <? k'); [cbn [map fst In]; intuition|].
+    destruct (k =? k') eqn:E; cbn [map fst In].
+    + apply N.eqb_eq in E. subst. intuition.
+    + rewrite IH. intuition.
+Qed.
+Lemma vmodify_sorted : forall k g m, vsorted m -> vsorted (vmodify k g m).
+Proof.
+  intros k g m. induction m as [|[k' v] r IH]; intros H; cbn [vmodify].
+  - cbn [vsorted map In]. split; [intros x []|exact I].
+  - destruct H as [Hlb Hr]. destruct (k <? k') eqn:E1.
+    + apply N.ltb_lt in E1. cbn [vsorted]. split; [|split; assumption].
+      intros x [<- | Hx]; [exact E1|]. specialize (Hlb x Hx). cbn [fst]. lia.
+    + apply N.ltb_ge in E1. destruct (k =? k') eqn:E2.
+      * cbn [vsorted]. split; assumption.
+      * apply N.eqb_neq in E2. cbn [vsorted]. split; [|apply IH; exact Hr].
+        intros x Hx. apply keys_vmodify in Hx. destruct Hx as [-> | Hx]; [lia | apply Hlb; exact Hx].
+Qed.
+Lemma vget_vmodify : forall x k g m, vsorted m ->
   vget x (vmodify k g m) = if x =? k then Some (g (vget_d k m)) else vget x m.
 Proof.
-  intros x k g m. unfold vget_d. induction m as [|[k' v] r IH]; cbn [vmodify vget].
+  intros x k g m. unfold vget_d. induction m as [|[k' v] r IH]; intros Hs; cbn [vmodify vget].
   - destruct (x =? k); reflexivity.
-  - destruct (k <? k') eqn:E1.
+  - destruct Hs as [Hlb Hr]. destruct (k <? k') eqn:E1.
     + cbn [vget]. destruct (x =? k) eqn:Ex; [|reflexivity].
       apply N.eqb_eq in Ex. subst x. apply N.ltb_lt in E1.
-      destruct (k =? k') eqn:E; [apply N.eqb_eq in E; lia | reflexivity].
+      destruct (k =? k') eqn:E; [apply N.eqb_eq in E; lia |].
+      rewrite (vget_none k r); [reflexivity|]. intros y Hy. specialize (Hlb y Hy). lia.
     + destruct (k =? k') eqn:E2; cbn [vget].
       * apply N.eqb_eq in E2. subst k'. destruct (x =? k); reflexivity.
-      * rewrite IH. destruct (x =? k') eqn:Ex'; [|reflexivity].
+      * rewrite (IH Hr). destruct (x =? k') eqn:Ex'; [|reflexivity].
         apply N.eqb_eq in Ex'. subst k'. destruct (x =? k) eqn:Exk; [|reflexivity].
         apply N.eqb_eq in Exk. subst k. rewrite N.eqb_refl in E2. discriminate.
 Qed.
@@ -104,4 +140,471 @@ Lemma vget_mem : forall x m, memN x (map fst m) = match vget x m with Some _ => 
 Proof.
   intros x m. induction m as [|[k v] r IH]; cbn [map vget fst]; [reflexivity|].
   unfold memN in *. cbn [existsb]. destruct (x =? k); [reflexivity | exact IH].
+Qed.
+
+(** * What a state denotes, and the invariant of [run] *)
+
+Definition fm (ik : ikeys) (x : key) : list fmt := vi_fmts (vget_d x (ik_vars ik)).
+Definition ct (ik : ikeys) (x : key) : option rop := vi_count (vget_d x (ik_vars ik)).
+Definition isv (ik : ikeys) (x : key) : bool := match vget x (ik_vars ik) with Some _ => true | None => false end.
+Definition has_vf (x : key) (f : fmt) (V : list (key * fmt)) : bool :=
+  existsb (fun vf => (fst vf =? x) && (snd vf =? f)) V.
+
+Record Inv (done : list event) (ik : ikeys) : Prop := mk_inv {
+  inv_sorted : vsorted (ik_vars ik);
+  inv_comps : forall x, memN x (ik_comps ik) = memN x (ev_comps done);
+  inv_isv : forall x, isv ik x = memN x (map fst (ev_vars done)) || memN x (map fst (ev_counts done));
+  inv_fm : forall x f, memN f (fm ik x) = has_vf x f (ev_vars done);
+  inv_ct1 : forall x t, In (x, t) (ev_counts done) -> ct ik x = Some t;
+  inv_ct2 : forall x t, ct ik x = Some t -> In (x, t) (ev_counts done) }.
+
+Lemma inv_empty : Inv [] ik_empty.
+Proof. constructor; cbn; try reflexivity; try tauto; intros; discriminate. Qed.
+
+Lemma rop_eqb_eq : forall a b, rop_eqb a b = true <-> a = b.
+Proof.
+  intros [x|] [y|]; cbn [rop_eqb]; split; intros H; try reflexivity; try discriminate.
+  - apply N.eqb_eq in H. subst. reflexivity.
+  - inversion H. apply N.eqb_refl.
+Qed.
+
+Definition conflict_err (t0 t : rop) : kerr :=
+  match t0, t with RRange a, RRange b => EMismatch a b | _, _ => EMix end.
+
+Lemma push_count_cases : forall t k ik,
+  let ik' := mk_ik (ik_comps ik) (vmodify k (fun vi => mk_vi (vi_fmts vi) (Some t)) (ik_vars ik)) in
+  (push_count t k ik = inl ik' /\ (ct ik k = None \/ ct ik k = Some t))
+  \/ (exists t0, ct ik k = Some t0 /\ t0 <> t /\ push_count t k ik = inr (conflict_err t0 t)).
+Proof.
+  intros t k ik ik'. unfold push_count, ct, vget_d. fold ik'.
+  destruct (vget k (ik_vars ik)) as [vi|]; cbn [vi_count vi_default].
+  2: { left. split; [reflexivity | left; reflexivity]. }
+  destruct (vi_count vi) as [[a|]|]; destruct t as [b|]; cbn [conflict_err].
+  - destruct (a =? b) eqn:E.
+    + apply N.eqb_eq in E. subst. left. split; [reflexivity | right; reflexivity].
+    + right. exists (RRange a). split; [reflexivity|]. split; [|reflexivity]. apply N.eqb_neq in E. congruence.
+  - right. exists (RRange a). split; [reflexivity|]. split; [discriminate | reflexivity].
+  - right. exists RPlural. split; [reflexivity|]. split; [discriminate | reflexivity].
+  - left. split; [reflexivity | right; reflexivity].
+  - left. split; [reflexivity | left; reflexivity].
+  - left. split; [reflexivity | left; reflexivity].
+Qed.
+
+Lemma ev_vars_app : forall a b, ev_vars (a ++ b) = ev_vars a ++ ev_vars b.
+Proof. intros. unfold ev_vars. apply flat_map_app. Qed.
+Lemma ev_comps_app : forall a b, ev_comps (a ++ b) = ev_comps a ++ ev_comps b.
+Proof. intros. unfold ev_comps. apply flat_map_app. Qed.
+Lemma ev_counts_app : forall a b, ev_counts (a ++ b) = ev_counts a ++ ev_counts b.
+Proof. intros. unfold ev_counts. apply flat_map_app. Qed.
+
+Lemma memN_snoc : forall (B : Type) x (l : list (key * B)) k (b : B),
+  memN x (map fst (l ++ [(k, b)])) = memN x (map fst l) || (x =? k).
+Proof. intros. rewrite map_app, memN_app. cbn [map fst]. unfold memN at 2. cbn [existsb]. rewrite orb_false_r. reflexivity. Qed.
+Lemma has_vf_snoc : forall x f' V k f, has_vf x f' (V ++ [(k, f)]) = has_vf x f' V || ((k =? x) && (f =? f')).
+Proof. intros. unfold has_vf. rewrite existsb_app. cbn [existsb fst snd]. rewrite orb_false_r. reflexivity. Qed.
+
+Lemma inv_step : forall done s e s',
+  Inv done (ikm s) -> apply_event e s = KOk s' -> Inv (done ++ [e]) (ikm s').
+Proof.
+  intros done s e s' [Hs Hc Hv Hf H1 H2] Ha. destruct e as [k f|k|k t]; cbn [apply_event] in Ha.
+  - inversion Ha; subst s'. cbn [ikm]. unfold push_var.
+    constructor; cbn [ik_vars ik_comps]; rewrite ?ev_vars_app, ?ev_comps_app, ?ev_counts_app;
+      cbn [ev_vars ev_comps ev_counts flat_map app]; rewrite ?app_nil_r.
+    + apply vmodify_sorted. exact Hs.
+    + exact Hc.
+    + intros x. unfold isv in *. cbn [ik_vars]. rewrite (vget_vmodify _ _ _ _ Hs), memN_snoc.
+      specialize (Hv x). destruct (x =? k).
+      * rewrite orb_true_r. reflexivity.
+      * rewrite orb_false_r. exact Hv.
+    + intros x f'. unfold fm, vget_d in *. cbn [ik_vars]. rewrite (vget_vmodify _ _ _ _ Hs), has_vf_snoc.
+      destruct (x =? k) eqn:E.
+      * apply N.eqb_eq in E. subst x. cbn [vi_fmts]. rewrite memN_sinsert. specialize (Hf k f'). unfold vget_d in *.
+        rewrite Hf, N.eqb_refl. cbn [andb]. rewrite (N.eqb_sym f f'). apply orb_comm.
+      * rewrite (N.eqb_sym k x), E. cbn [andb]. rewrite orb_false_r. apply Hf.
+    + intros x t Hin. unfold ct, vget_d in *. cbn [ik_vars]. rewrite (vget_vmodify _ _ _ _ Hs).
+      specialize (H1 x t Hin). destruct (x =? k) eqn:E; [|exact H1].
+      apply N.eqb_eq in E. subst x. cbn [vi_count]. exact H1.
+    + intros x t. unfold ct, vget_d in *. cbn [ik_vars]. rewrite (vget_vmodify _ _ _ _ Hs).
+      destruct (x =? k) eqn:E; [|apply H2]. apply N.eqb_eq in E. subst x. cbn [vi_count]. apply H2.
+  - inversion Ha; subst s'. cbn [ikm]. unfold push_comp.
+    constructor; cbn [ik_vars ik_comps]; rewrite ?ev_vars_app, ?ev_comps_app, ?ev_counts_app;
+      cbn [ev_vars ev_comps ev_counts flat_map app]; rewrite ?app_nil_r; auto.
+    intros x. rewrite memN_sinsert, memN_app, Hc. unfold memN at 3. cbn [existsb]. rewrite orb_false_r. apply orb_comm.
+  - destruct (push_count_cases t k (ikm s)) as [[Hp Hold] | [t0 [_ [_ Hp]]]]; rewrite Hp in Ha; [|discriminate].
+    inversion Ha; subst s'. cbn [ikm].
+    constructor; cbn [ik_vars ik_comps]; rewrite ?ev_vars_app, ?ev_comps_app, ?ev_counts_app;
+      cbn [ev_vars ev_comps ev_counts flat_map app]; rewrite ?app_nil_r.
+    + apply vmodify_sorted. exact Hs.
+    + exact Hc.
+    + intros x. unfold isv in *. cbn [ik_vars]. rewrite (vget_vmodify _ _ _ _ Hs), memN_snoc.
+      specialize (Hv x). destruct (x =? k).
+      * rewrite !orb_true_r. reflexivity.
+      * rewrite orb_false_r. exact Hv.
+    + intros x f'. unfold fm, vget_d in *. cbn [ik_vars]. rewrite (vget_vmodify _ _ _ _ Hs).
+      destruct (x =? k) eqn:E; [|apply Hf]. apply N.eqb_eq in E. subst x. cbn [vi_fmts]. apply Hf.
+    + intros x t'. rewrite in_app_iff. cbn [In]. unfold ct, vget_d. cbn [ik_vars]. rewrite (vget_vmodify _ _ _ _ Hs).
+      intros [Hin | [Heq | []]].
+      * destruct (x =? k) eqn:E; [|apply H1; exact Hin]. apply N.eqb_eq in E. subst x. cbn [vi_count].
+        specialize (H1 k t' Hin). destruct Hold as [Hn | Hsome]; congruence.
+      * inversion Heq; subst. rewrite N.eqb_refl. reflexivity.
+    + intros x t'. rewrite in_app_iff. cbn [In]. unfold ct, vget_d. cbn [ik_vars]. rewrite (vget_vmodify _ _ _ _ Hs).
+      destruct (x =? k) eqn:E.
+      * apply N.eqb_eq in E. subst x. cbn [vi_count]. intros Heq. inversion Heq; subst. right. left. reflexivity.
+      * intros Hc'. left. apply H2. exact Hc'.
+Qed.
+
+(** an error of [apply_event] is a count used with a type different from one seen before *)
+Lemma inv_err : forall done s e err,
+  Inv done (ikm s) -> apply_event e s = KErr err ->
+  exists k t t0, e = EvCount k t /\ In (k, t0) (ev_counts done) /\ t0 <> t /\ err = conflict_err t0 t.
+Proof.
+  intros done s e err Hinv Ha. destruct e as [k f|k|k t]; cbn [apply_event] in Ha; try discriminate.
+  destruct (push_count_cases t k (ikm s)) as [[Hp _] | [t0 [Hct [Hne Hp]]]]; rewrite Hp in Ha; [discriminate|].
+  inversion Ha; subst. exists k, t, t0. split; [reflexivity|]. split; [apply (inv_ct2 _ _ Hinv); exact Hct|]. auto.
+Qed.
+
+Inductive run_result (done evs : list event) : kres -> Prop :=
+| rr_ok : forall s', Inv (done ++ evs) (ikm s') -> run_result done evs (KOk s')
+| rr_err : forall pre k t t0 post,
+    evs = pre ++ EvCount k t :: post -> In (k, t0) (ev_counts (done ++ pre)) -> t0 <> t ->
+    run_result done evs (KErr (conflict_err t0 t)).
+
+Lemma run_inv : forall evs done s, Inv done (ikm s) -> run_result done evs (run evs s).
+Proof.
+  induction evs as [|e r IH]; intros done s Hinv; cbn [run].
+  - apply rr_ok. rewrite app_nil_r. exact Hinv.
+  - destruct (apply_event e s) as [s1|err] eqn:Ha.
+    + pose proof (inv_step _ _ _ _ Hinv Ha) as Hinv1. specialize (IH (done ++ [e]) s1 Hinv1).
+      inversion IH as [s' Hs' | pre k t t0 post Hevs Hin Hne]; subst.
+      * apply rr_ok. rewrite <- app_assoc in Hs'. exact Hs'.
+      * apply (rr_err done (e :: pre ++ EvCount k t :: post) (e :: pre) k t t0 post); [reflexivity| |exact Hne].
+        rewrite <- app_assoc in Hin. exact Hin.
+    + destruct (inv_err _ _ _ _ Hinv Ha) as [k [t [t0 [-> [Hin [Hne ->]]]]]].
+      apply (rr_err done (EvCount k t :: r) [] k t t0 r); [reflexivity| |exact Hne]. rewrite app_nil_r. exact Hin.
+Qed.
+
+(** * key_signature is [run] over the events of all locales (up to the literal-type bookkeeping) *)
+
+Definition req (r1 r2 : kres) : Prop :=
+  match r1, r2 with
+  | KOk a, KOk b => ikm a = ikm b
+  | KErr a, KErr b => a = b
+  | _, _ => False
+  end.
+Lemma req_refl : forall r, req r r.
+Proof. intros [s|e]; reflexivity. Qed.
+
+Lemma apply_event_ikm : forall e s1 s2, ikm s1 = ikm s2 -> apply_event e s1 = apply_event e s2.
+Proof. intros e s1 s2 H. destruct e; cbn [apply_event]; rewrite H; reflexivity. Qed.
+Lemma run_ikm : forall evs s1 s2, ikm s1 = ikm s2 -> req (run evs s1) (run evs s2).
+Proof.
+  intros [|e r] s1 s2 H; cbn [run]; [exact H|]. rewrite (apply_event_ikm e s1 s2 H). apply req_refl.
+Qed.
+
+Lemma gki_top : forall v s, (forall t, v <> PLit t) -> gki v s true = gki v s false.
+Proof. intros v s H. destruct v; try reflexivity. exfalso. apply (H t). reflexivity. Qed.
+
+Lemma merge_value_run : forall v s, v <> PSubkeys -> req (merge_value v s) (run (events v) s).
+Proof.
+  intros v s Hns. destruct v; cbn [merge_value]; try (rewrite gki_events; apply req_refl).
+  - cbn [events run]. destruct s as [t'|ik]; [|reflexivity]. destruct (littype_eqb t t'); reflexivity.
+  - reflexivity.
+  - contradiction.
+Qed.
+
+Lemma conflict_err_not_sub : forall a b, conflict_err a b <> ESubkeys.
+Proof. intros [x|] [y|]; discriminate. Qed.
+
+Definition tracks (r : kres) (vs : list pv) (r' : kres) : Prop :=
+  match r with
+  | KOk s' => req (KOk s') r'
+  | KErr ESubkeys => In PSubkeys vs
+  | KErr e => r' = KErr e
+  end.
+
+Lemma push_count_not_sub : forall t k ik, push_count t k ik <> inr ESubkeys.
+Proof.
+  intros t k ik. unfold push_count. destruct (vget k (ik_vars ik)) as [vi|]; [|discriminate].
+  destruct (vi_count vi) as [[a|]|]; destruct t as [b|]; try discriminate. destruct (a =? b); discriminate.
+Qed.
+Lemma run_err_not_sub : forall evs s, run evs s <> KErr ESubkeys.
+Proof.
+  induction evs as [|e r IH]; intros s; cbn [run]; [discriminate|].
+  destruct (apply_event e s) as [s1|err] eqn:Ha; [apply IH|].
+  destruct e; cbn [apply_event] in Ha; try discriminate.
+  destruct (push_count t k (ikm s)) eqn:Hp; [discriminate|]. inversion Ha; subst. intros Heq. inversion Heq; subst.
+  apply (push_count_not_sub _ _ _ Hp).
+Qed.
+
+Lemma tracks_step : forall v r s1 s2, ikm s1 = ikm s2 -> merge_value v s1 = gki v s1 false ->
+  (forall a b, ikm a = ikm b -> tracks (merge_all r a) r (run (flat_map events r) b)) ->
+  tracks (merge_all (v :: r) s1) (v :: r) (run (events v ++ flat_map events r) s2).
+Proof.
+  intros v r s1 s2 H Hm IH. cbn [merge_all]. rewrite Hm, gki_events, run_app.
+  pose proof (run_ikm (events v) s1 s2 H) as Hr. unfold req in Hr.
+  destruct (run (events v) s1) as [a|ea] eqn:E1; destruct (run (events v) s2) as [b|eb] eqn:E2; try contradiction.
+  - specialize (IH a b Hr). unfold tracks in *. destruct (merge_all r a) as [s'|e]; [exact IH|].
+    destruct e; [exact IH | exact IH | right; exact IH].
+  - subst eb. unfold tracks. destruct ea; try reflexivity. exfalso. apply (run_err_not_sub _ _ E1).
+Qed.
+
+Lemma merge_all_run : forall vs s1 s2, ikm s1 = ikm s2 ->
+  tracks (merge_all vs s1) vs (run (flat_map events vs) s2).
+Proof.
+  induction vs as [|v r IH]; intros s1 s2 H; cbn [flat_map].
+  - exact H.
+  - destruct v.
+    + (* PLit *)
+      cbn [merge_all merge_value events app].
+      assert (Hk : exists s1', (match s1 with IInterpol _ => KOk s1 | ILit t' => if littype_eqb t t' then KOk s1 else KOk (IInterpol ik_empty) end) = KOk s1' /\ ikm s1' = ikm s2).
+      { destruct s1 as [t'|ik]; [destruct (littype_eqb t t')|]; eexists; split; try reflexivity; exact H. }
+      destruct Hk as [s1' [-> Hk]]. specialize (IH s1' s2 Hk). unfold tracks in *.
+      destruct (merge_all r s1') as [s'|e]; [exact IH|]. destruct e; [exact IH | exact IH | right; exact IH].
+    + apply tracks_step; [exact H | reflexivity | exact IH].
+    + apply tracks_step; [exact H | reflexivity | exact IH].
+    + apply tracks_step; [exact H | reflexivity | exact IH].
+    + apply tracks_step; [exact H | reflexivity | exact IH].
+    + apply tracks_step; [exact H | reflexivity | exact IH].
+    + apply tracks_step; [exact H | reflexivity | exact IH].
+    + (* PDefault *)
+      cbn [merge_all merge_value events app]. specialize (IH s1 s2 H). unfold tracks in *.
+      destruct (merge_all r s1) as [s'|e]; [exact IH|]. destruct e; [exact IH | exact IH | right; exact IH].
+    + (* PSubkeys *)
+      cbn [merge_all merge_value tracks]. left. reflexivity.
+Qed.
+
+Lemma key_signature_run : forall d others,
+  tracks (key_signature d others) others (run (all_events (d :: others)) (ILit LString)).
+Proof.
+  intros d others. unfold key_signature, get_keys, all_events. cbn [flat_map]. rewrite run_app.
+  assert (Hd : exists s1 , gki d (ILit LString) true = (match run (events d) (ILit LString) with KOk _ => KOk s1 | err => err end)
+                           /\ (forall s2, run (events d) (ILit LString) = KOk s2 -> ikm s1 = ikm s2)).
+  { destruct d as [t| | | | | | | |].
+    1: { exists (ILit t). split; [reflexivity|]. intros s2 Hs2. inversion Hs2. reflexivity. }
+    all: rewrite gki_top by (intros t; discriminate); rewrite gki_events;
+      destruct (run (events _) (ILit LString)) as [s1|e] eqn:E; [exists s1 | exists (ILit LString)];
+      (split; [reflexivity|]); intros s2 Hs2; inversion Hs2; reflexivity. }
+  destruct Hd as [s1 [-> Hs1]].
+  destruct (run (events d) (ILit LString)) as [s2|e] eqn:E.
+  - apply merge_all_run. apply Hs1. reflexivity.
+  - unfold tracks. destruct e; try reflexivity. exfalso. apply (run_err_not_sub _ _ E).
+Qed.
+
+(** * The specification holds of the model *)
+
+Lemma in_map_fst : forall (B : Type) (x : N) (b : B) l, In (x, b) l -> In x (map fst l).
+Proof. intros B x b l H. apply in_map_iff. exists (x, b). split; [reflexivity | exact H]. Qed.
+
+Lemma has_vf_In : forall x f V, has_vf x f V = true <-> In (x, f) V.
+Proof.
+  intros x f V. unfold has_vf. rewrite existsb_exists. split.
+  - intros [[a b] [Hin H]]. cbn [fst snd] in H. apply andb_true_iff in H. destruct H as [H1 H2].
+    apply N.eqb_eq in H1. apply N.eqb_eq in H2. subst. exact Hin.
+  - intros H. exists (x, f). split; [exact H|]. cbn [fst snd]. rewrite !N.eqb_refl. reflexivity.
+Qed.
+
+Lemma spec_ok : forall vs s, Inv (all_events vs) (ikm s) -> spec_C08 vs (KOk s) = true.
+Proof.
+  intros vs s [Hs Hc Hv Hf H1 H2]. unfold spec_C08, sig_comps, sig_vars.
+  set (evs := all_events vs) in *. set (ik := ikm s) in *.
+  repeat (apply andb_true_iff; split).
+  - (* consistent *)
+    unfold consistent. apply forallb_forall. intros [x t1] Ha. apply forallb_forall. intros [y t2] Hb. cbn [fst snd].
+    destruct (x =? y) eqn:E; [|reflexivity]. apply N.eqb_eq in E. subst y. cbn [negb orb].
+    apply rop_eqb_eq. pose proof (H1 _ _ Ha) as Ea. pose proof (H1 _ _ Hb) as Eb. congruence.
+  - apply forallb_forall. intros c Hin. rewrite <- Hc. apply memN_In. exact Hin.
+  - apply forallb_forall. intros c Hin. rewrite Hc. apply memN_In. exact Hin.
+  - apply forallb_forall. intros [x vi] Hin. cbn [fst]. rewrite <- Hv. unfold isv. rewrite <- vget_mem.
+    apply memN_In. apply (in_map_fst _ _ _ _ Hin).
+  - apply forallb_forall. intros x Hin. rewrite vget_mem. fold (isv ik x). rewrite Hv.
+    apply in_app_or in Hin. destruct Hin as [Hin|Hin]; apply memN_In in Hin; rewrite Hin; [reflexivity | apply orb_true_r].
+  - apply forallb_forall. intros x Hin. apply memN_In in Hin. rewrite vget_mem in Hin.
+    destruct (vget x (ik_vars ik)) as [vi|] eqn:Hg; [|discriminate].
+    assert (Hfm : fm ik x = vi_fmts vi) by (unfold fm, vget_d; rewrite Hg; reflexivity).
+    assert (Hct : ct ik x = vi_count vi) by (unfold ct, vget_d; rewrite Hg; reflexivity).
+    repeat (apply andb_true_iff; split).
+    + apply forallb_forall. intros f Hfin. fold (has_vf x f (ev_vars evs)). rewrite <- Hf, Hfm. apply memN_In. exact Hfin.
+    + apply forallb_forall. intros [y f] Hin'. cbn [fst snd]. destruct (y =? x) eqn:E; [|reflexivity].
+      apply N.eqb_eq in E. subst y. cbn [negb orb]. rewrite <- Hfm, Hf. apply has_vf_In. exact Hin'.
+    + rewrite <- Hct. destruct (ct ik x) as [t|] eqn:Hc'.
+      * apply existsb_exists. exists (x, t). split; [apply H2; exact Hc'|]. cbn [fst snd]. rewrite N.eqb_refl. cbn [andb].
+        apply rop_eqb_eq. reflexivity.
+      * destruct (memN x (map fst (ev_counts evs))) eqn:Hm; [|reflexivity]. apply memN_In in Hm. apply in_map_iff in Hm.
+        destruct Hm as [[y t] [Hy Hin']]. cbn [fst] in Hy. subst y. rewrite (H1 _ _ Hin') in Hc'. discriminate.
+Qed.
+
+Lemma spec_err : forall vs pre k t t0 post,
+  all_events vs = pre ++ EvCount k t :: post -> In (k, t0) (ev_counts pre) -> t0 <> t ->
+  spec_C08 vs (KErr (conflict_err t0 t)) = true.
+Proof.
+  intros vs pre k t t0 post Hev Hin Hne. unfold spec_C08. rewrite Hev.
+  assert (Ha : In (k, t0) (ev_counts (pre ++ EvCount k t :: post))).
+  { rewrite ev_counts_app. apply in_or_app. left. exact Hin. }
+  assert (Hb : In (k, t) (ev_counts (pre ++ EvCount k t :: post))).
+  { rewrite ev_counts_app. apply in_or_app. right. cbn. left. reflexivity. }
+  destruct t0 as [a|]; destruct t as [b|]; cbn [conflict_err].
+  - apply andb_true_iff. split.
+    + destruct (a =? b) eqn:E; [|reflexivity]. apply N.eqb_eq in E. subst. contradiction.
+    + apply existsb_exists. exists (k, RRange a). split; [exact Ha|]. apply existsb_exists. exists (k, RRange b). split; [exact Hb|].
+      cbn [fst snd rop_eqb]. rewrite !N.eqb_refl. reflexivity.
+  - apply existsb_exists. exists (k, RRange a). split; [exact Ha|]. apply existsb_exists. exists (k, RPlural). split; [exact Hb|].
+    cbn [fst snd]. rewrite N.eqb_refl. reflexivity.
+  - apply existsb_exists. exists (k, RPlural). split; [exact Ha|]. apply existsb_exists. exists (k, RRange b). split; [exact Hb|].
+    cbn [fst snd]. rewrite N.eqb_refl. reflexivity.
+  - contradiction.
+Qed.
+
+Lemma inv_start : Inv [] (ikm (ILit LString)).
+Proof. exact inv_empty. Qed.
+
+(** C08_spec *)
+Lemma spec_C08_holds : forall d others, spec_C08 (d :: others) (key_signature d others) = true.
+Proof.
+  intros d others. pose proof (key_signature_run d others) as Ht.
+  pose proof (run_inv (all_events (d :: others)) [] (ILit LString) inv_start) as Hr.
+  remember (run (all_events (d :: others)) (ILit LString)) as R eqn:HR. clear HR.
+  destruct Hr as [s' Hinv | pre k t t0 post Hev Hin Hne]; cbn [app] in *.
+  - destruct (key_signature d others) as [s|e]; unfold tracks in Ht.
+    + unfold req in Ht. apply spec_ok. rewrite Ht. exact Hinv.
+    + destruct e; try discriminate. unfold spec_C08. apply existsb_exists. exists PSubkeys. split; [right; exact Ht | reflexivity].
+  - destruct (key_signature d others) as [s|e]; unfold tracks in Ht; [contradiction|].
+    destruct e as [|t1 t2|].
+    + inversion Ht as [Hc]. apply (spec_err _ pre k t t0 post Hev Hin Hne).
+    + inversion Ht as [Hc]. apply (spec_err _ pre k t t0 post Hev Hin Hne).
+    + unfold spec_C08. apply existsb_exists. exists PSubkeys. split; [right; exact Ht | reflexivity].
+Qed.
+
+(** * Union, conflicts, independence of the locale order *)
+
+Lemma signature_inv : forall d others s,
+  key_signature d others = KOk s -> Inv (all_events (d :: others)) (ikm s).
+Proof.
+  intros d others s Hk. pose proof (key_signature_run d others) as Ht. rewrite Hk in Ht.
+  pose proof (run_inv (all_events (d :: others)) [] (ILit LString) inv_start) as Hr.
+  remember (run (all_events (d :: others)) (ILit LString)) as R eqn:HR. clear HR.
+  destruct Hr as [s' Hinv | pre k t t0 post Hev Hin Hne]; cbn [app tracks req] in *; [|contradiction].
+  rewrite Ht. exact Hinv.
+Qed.
+
+Definition sig_is (s : iol) (evs : list event) : Prop :=
+  (forall c, In c (sig_comps s) <-> In c (ev_comps evs)) /\
+  (forall x, In x (map fst (sig_vars s)) <-> In x (map fst (ev_vars evs)) \/ In x (map fst (ev_counts evs))) /\
+  (forall x f, In f (fm (ikm s) x) <-> In (x, f) (ev_vars evs)) /\
+  (forall x t, ct (ikm s) x = Some t <-> In (x, t) (ev_counts evs)).
+
+Lemma inv_sig_is : forall s evs, Inv evs (ikm s) -> sig_is s evs.
+Proof.
+  intros s evs [Hs Hc Hv Hf H1 H2]. unfold sig_is, sig_comps, sig_vars. repeat split.
+  - intros H. apply memN_In. rewrite <- Hc. apply memN_In. exact H.
+  - intros H. apply memN_In. rewrite Hc. apply memN_In. exact H.
+  - intros H. apply memN_In in H. rewrite vget_mem in H. fold (isv (ikm s) x) in H. rewrite Hv in H.
+    apply orb_true_iff in H. destruct H as [H|H]; apply memN_In in H; auto.
+  - intros H. apply memN_In. rewrite vget_mem. fold (isv (ikm s) x). rewrite Hv. apply orb_true_iff.
+    destruct H as [H|H]; apply memN_In in H; auto.
+  - intros H. apply has_vf_In. rewrite <- Hf. apply memN_In. exact H.
+  - intros H. apply memN_In. rewrite Hf. apply has_vf_In. exact H.
+  - apply H2.
+  - apply H1.
+Qed.
+
+(** C08_union *)
+Lemma signature_union : forall d others s,
+  key_signature d others = KOk s -> sig_is s (all_events (d :: others)).
+Proof. intros d others s H. apply inv_sig_is. apply signature_inv. exact H. Qed.
+
+Lemma consistent_iff : forall K,
+  consistent K = true <-> (forall x t1 t2, In (x, t1) K -> In (x, t2) K -> t1 = t2).
+Proof.
+  intros K. unfold consistent. split.
+  - intros H x t1 t2 Ha Hb. rewrite forallb_forall in H. specialize (H _ Ha). rewrite forallb_forall in H. specialize (H _ Hb).
+    cbn [fst snd] in H. rewrite N.eqb_refl in H. cbn [negb orb] in H. apply rop_eqb_eq. exact H.
+  - intros H. apply forallb_forall. intros [x t1] Ha. apply forallb_forall. intros [y t2] Hb. cbn [fst snd].
+    destruct (x =? y) eqn:E; [|reflexivity]. apply N.eqb_eq in E. subst y. cbn [negb orb]. apply rop_eqb_eq. apply (H x); assumption.
+Qed.
+
+(** C08_conflict: the signature is an error exactly when some count variable is used with two different types
+    (range types i32/u64/.. or plural), in any locales *)
+Lemma signature_conflict : forall d others, ~ In PSubkeys others ->
+  ((exists e, key_signature d others = KErr e) <-> consistent (ev_counts (all_events (d :: others))) = false).
+Proof.
+  intros d others Hns. split.
+  - intros [e He]. pose proof (key_signature_run d others) as Ht. rewrite He in Ht.
+    pose proof (run_inv (all_events (d :: others)) [] (ILit LString) inv_start) as Hr.
+    remember (run (all_events (d :: others)) (ILit LString)) as R eqn:HR. clear HR.
+    destruct (consistent (ev_counts (all_events (d :: others)))) eqn:Hc; [|reflexivity]. exfalso.
+    destruct Hr as [s' Hinv | pre k t t0 post Hev Hin Hne]; cbn [app tracks] in *.
+    + destruct e; try discriminate. contradiction.
+    + apply Hne. rewrite consistent_iff in Hc. apply (Hc k); rewrite Hev, ev_counts_app; apply in_or_app;
+        [left; exact Hin | right; cbn; left; reflexivity].
+  - intros Hc. destruct (key_signature d others) as [s|e] eqn:Hk; [|eauto]. exfalso.
+    pose proof (signature_inv _ _ _ Hk) as [Hs Hco Hv Hf H1 H2].
+    assert (Ht : consistent (ev_counts (all_events (d :: others))) = true).
+    { apply consistent_iff. intros x t1 t2 Ha Hb. pose proof (H1 _ _ Ha) as Ea. pose proof (H1 _ _ Hb) as Eb. congruence. }
+    congruence.
+Qed.
+
+Lemma perm_all_events : forall d o1 o2, Permutation o1 o2 -> Permutation (all_events (d :: o1)) (all_events (d :: o2)).
+Proof.
+  intros d o1 o2 H. unfold all_events. cbn [flat_map]. apply Permutation_app_head. apply Permutation_flat_map. exact H.
+Qed.
+
+Definition sig_equiv (s1 s2 : iol) : Prop :=
+  (forall c, In c (sig_comps s1) <-> In c (sig_comps s2)) /\
+  (forall x, In x (map fst (sig_vars s1)) <-> In x (map fst (sig_vars s2))) /\
+  (forall x f, In f (fm (ikm s1) x) <-> In f (fm (ikm s2) x)) /\
+  (forall x, ct (ikm s1) x = ct (ikm s2) x).
+
+(** C08_order: the signature does not depend on the order of the non-default locales *)
+Lemma signature_order : forall d o1 o2, Permutation o1 o2 -> ~ In PSubkeys o1 ->
+  match key_signature d o1, key_signature d o2 with
+  | KOk s1, KOk s2 => sig_equiv s1 s2
+  | KErr _, KErr _ => True
+  | _, _ => False
+  end.
+Proof.
+  intros d o1 o2 Hp Hns.
+  assert (Hns2 : ~ In PSubkeys o2) by (intros H; apply Hns; apply (Permutation_in _ (Permutation_sym Hp) H)).
+  pose proof (perm_all_events d _ _ Hp) as Hpe.
+  assert (Hin : forall (B : Type) (g : event -> list B) y,
+             In y (flat_map g (all_events (d :: o1))) <-> In y (flat_map g (all_events (d :: o2)))).
+  { intros B g y. split; apply Permutation_in; apply Permutation_flat_map; [exact Hpe | apply Permutation_sym; exact Hpe]. }
+  assert (Hcons : consistent (ev_counts (all_events (d :: o1))) = consistent (ev_counts (all_events (d :: o2)))).
+  { destruct (consistent (ev_counts (all_events (d :: o1)))) eqn:E1; destruct (consistent (ev_counts (all_events (d :: o2)))) eqn:E2;
+      try reflexivity; exfalso.
+    - rewrite consistent_iff in E1. assert (consistent (ev_counts (all_events (d :: o2))) = true); [|congruence].
+      apply consistent_iff. intros x t1 t2 Ha Hb. apply (E1 x); apply (Hin _ _ _); assumption.
+    - rewrite consistent_iff in E2. assert (consistent (ev_counts (all_events (d :: o1))) = true); [|congruence].
+      apply consistent_iff. intros x t1 t2 Ha Hb. apply (E2 x); apply (Hin _ _ _); assumption. }
+  destruct (key_signature d o1) as [s1|e1] eqn:K1; destruct (key_signature d o2) as [s2|e2] eqn:K2.
+  - destruct (signature_union _ _ _ K1) as [A1 [B1 [C1 D1]]]. destruct (signature_union _ _ _ K2) as [A2 [B2 [C2 D2]]].
+    unfold sig_equiv. repeat split.
+    + intros H. apply A2. apply (Hin _ _ _). apply A1. exact H.
+    + intros H. apply A1. apply (Hin _ _ _). apply A2. exact H.
+    + intros H. apply B2. apply B1 in H. destruct H as [H|H]; [left|right];
+        apply in_map_iff in H; destruct H as [p [Hp1 Hp2]]; apply in_map_iff; exists p; (split; [exact Hp1|]); apply (Hin _ _ _); exact Hp2.
+    + intros H. apply B1. apply B2 in H. destruct H as [H|H]; [left|right];
+        apply in_map_iff in H; destruct H as [p [Hp1 Hp2]]; apply in_map_iff; exists p; (split; [exact Hp1|]); apply (Hin _ _ _); exact Hp2.
+    + intros H. apply C2. apply (Hin _ _ _). apply C1. exact H.
+    + intros H. apply C1. apply (Hin _ _ _). apply C2. exact H.
+    + intros x. destruct (ct (ikm s1) x) as [t|] eqn:E1.
+      * symmetry. apply D2. apply (Hin _ _ _). apply D1. exact E1.
+      * destruct (ct (ikm s2) x) as [t|] eqn:E2; [|reflexivity].
+        apply D2 in E2. apply (Hin _ _ _) in E2. apply D1 in E2. congruence.
+  - assert (Hf : consistent (ev_counts (all_events (d :: o2))) = false) by (apply (signature_conflict d o2 Hns2); eauto).
+    rewrite <- Hcons in Hf. apply (signature_conflict d o1 Hns) in Hf. destruct Hf as [e He]. congruence.
+  - assert (Hf : consistent (ev_counts (all_events (d :: o1))) = false) by (apply (signature_conflict d o1 Hns); eauto).
+    rewrite Hcons in Hf. apply (signature_conflict d o2 Hns2) in Hf. destruct Hf as [e He]. congruence.
+  - exact I.
+Qed.
+
+(** C08_fields: make_fields produces one builder field per variable and per component *)
+Lemma insert_sorted_In : forall x y l, In x (insert_sorted y l) <-> x = y \/ In x l.
+Proof.
+  intros x y l. induction l as [|z r IH]; cbn [insert_sorted In]; [intuition|].
+  destruct (y <=? z); cbn [In]; [intuition|]. rewrite IH. intuition.
+Qed.
+Lemma make_fields_In : forall ik x, In x (make_fields ik) <-> In x (map fst (ik_vars ik)) \/ In x (ik_comps ik).
+Proof.
+  intros ik x. unfold make_fields. rewrite <- in_app_iff. generalize (map fst (ik_vars ik) ++ ik_comps ik). intros l.
+  induction l as [|y r IH]; cbn [fold_right In]; [tauto|]. rewrite insert_sorted_In, IH. intuition.
 Qed.
